@@ -17,6 +17,9 @@ pub enum Rx {
     Cat(Vec<Rx>),
     Alt(Vec<Rx>),
     Rep(Box<Rx>, u32, Option<u32>),
+    /// intersection / complement (Lark terminal operators & and ~); not printable as a plain regex
+    And(Vec<Rx>),
+    Not(Box<Rx>),
 }
 
 fn esc_rx_char(c: char, out: &mut String) {
@@ -67,6 +70,7 @@ impl Rx {
                     x.to_regex(out);
                 }
             }
+            Rx::And(_) | Rx::Not(_) => panic!("& and ~ are not regex syntax"),
             Rx::Rep(x, lo, hi) => {
                 out.push('(');
                 x.to_regex(out);
@@ -91,6 +95,8 @@ impl Rx {
             ),
             Rx::Cat(v) => tagged("cat", v.iter().map(|x| x.to_sx()).collect()),
             Rx::Alt(v) => tagged("alt", v.iter().map(|x| x.to_sx()).collect()),
+            Rx::And(v) => tagged("and", v.iter().map(|x| x.to_sx()).collect()),
+            Rx::Not(x) => tagged("not", vec![x.to_sx()]),
             Rx::Rep(x, lo, hi) => tagged(
                 "rep",
                 vec![x.to_sx(), int(*lo), int(hi.map(|h| h as i64).unwrap_or(-1))],
@@ -104,6 +110,89 @@ impl Rx {
             Rx::Cat(v) => v.iter().map(|x| x.min_len()).sum(),
             Rx::Alt(v) => v.iter().map(|x| x.min_len()).min().unwrap_or(0),
             Rx::Rep(x, lo, _) => x.min_len() * (*lo as usize),
+            Rx::And(v) => v.iter().map(|x| x.min_len()).max().unwrap_or(0),
+            Rx::Not(_) => 0,
+        }
+    }
+    pub fn has_and_not(&self) -> bool {
+        match self {
+            Rx::And(_) | Rx::Not(_) => true,
+            Rx::Cat(v) | Rx::Alt(v) => v.iter().any(|x| x.has_and_not()),
+            Rx::Rep(x, _, _) => x.has_and_not(),
+            _ => false,
+        }
+    }
+    /// Lark terminal expression (string literals, /classes/, grouping, |, repetition, &, ~)
+    pub fn to_lark_term(&self, out: &mut String) {
+        match self {
+            Rx::Lit(s) => {
+                out.push('"');
+                for c in s.chars() {
+                    match c {
+                        '"' => out.push_str("\\\""),
+                        '\\' => out.push_str("\\\\"),
+                        c if c.is_ascii_graphic() || c == ' ' => out.push(c),
+                        c if (c as u32) < 128 => out.push_str(&format!("\\x{:02x}", c as u32)),
+                        c => out.push_str(&format!("\\u{:04x}", c as u32)),
+                    }
+                }
+                out.push('"');
+            }
+            Rx::Class(_) => {
+                let mut r = String::new();
+                self.to_regex(&mut r);
+                out.push('/');
+                out.push_str(&r.replace('/', "\\/"));
+                out.push('/');
+            }
+            Rx::Cat(v) => {
+                out.push('(');
+                for (i, x) in v.iter().enumerate() {
+                    if i > 0 {
+                        out.push(' ');
+                    }
+                    x.to_lark_term(out);
+                }
+                out.push(')');
+            }
+            Rx::Alt(v) => {
+                out.push('(');
+                for (i, x) in v.iter().enumerate() {
+                    if i > 0 {
+                        out.push_str(" | ");
+                    }
+                    x.to_lark_term(out);
+                }
+                out.push(')');
+            }
+            Rx::And(v) => {
+                out.push('(');
+                for (i, x) in v.iter().enumerate() {
+                    if i > 0 {
+                        out.push_str(" & ");
+                    }
+                    x.to_lark_term(out);
+                }
+                out.push(')');
+            }
+            Rx::Not(x) => {
+                out.push_str("~(");
+                x.to_lark_term(out);
+                out.push(')');
+            }
+            Rx::Rep(x, lo, hi) => {
+                out.push('(');
+                x.to_lark_term(out);
+                out.push(')');
+                match (lo, hi) {
+                    (0, None) => out.push('*'),
+                    (1, None) => out.push('+'),
+                    (0, Some(1)) => out.push('?'),
+                    (lo, None) => out.push_str(&format!("{{{lo},}}")),
+                    (lo, Some(hi)) if lo == hi => out.push_str(&format!("{{{lo}}}")),
+                    (lo, Some(hi)) => out.push_str(&format!("{{{lo},{hi}}}")),
+                }
+            }
         }
     }
 }
@@ -524,6 +613,8 @@ impl Rx {
             ),
             "cat" => Rx::Cat(it[1..].iter().map(Rx::from_sx).collect()),
             "alt" => Rx::Alt(it[1..].iter().map(Rx::from_sx).collect()),
+            "and" => Rx::And(it[1..].iter().map(Rx::from_sx).collect()),
+            "not" => Rx::Not(Box::new(Rx::from_sx(&it[1]))),
             "rep" => {
                 let hi: i64 = sx_atom(&it[3]).parse().unwrap();
                 Rx::Rep(
@@ -622,4 +713,17 @@ pub fn corpus_lines(prop: &str) -> Vec<String> {
         }
     }
     out
+}
+
+/// regex with intersection and complement
+pub fn gen_rx_ext(rng: &mut Rng, depth: usize) -> Rx {
+    if depth == 0 || rng.chance(1, 2) {
+        return gen_rx(rng, depth);
+    }
+    match rng.below(4) {
+        0 => Rx::And(vec![gen_rx_ext(rng, depth - 1), gen_rx_ext(rng, depth - 1)]),
+        1 => Rx::And(vec![gen_rx(rng, depth), Rx::Not(Box::new(gen_rx(rng, depth - 1)))]),
+        2 => Rx::Cat(vec![gen_rx_ext(rng, depth - 1), gen_rx(rng, depth - 1)]),
+        _ => Rx::Alt(vec![gen_rx_ext(rng, depth - 1), gen_rx(rng, depth - 1)]),
+    }
 }
